@@ -18,6 +18,8 @@ import vlib
 
 PID = "C15"
 PROCS = (1, 2, 3, 4, 8, 16)
+# model-level mutators compared with the Go methods on (before, after) dumps of single changes
+TIED_MUTATORS = ("mut_bus_name", "mut_node_id", "mut_msg_name", "mut_msg_id", "mut_msg_static")
 
 
 def build_harness(ctx):
@@ -103,6 +105,7 @@ def run(ctx):
     wf_checked = wf_false = 0
     driver_total = written_total = 0
     first_out = None
+    mut_cmp, mut_moved = {}, {}
     import concurrent.futures as cf
     with cf.ThreadPoolExecutor(max_workers=len(procs_list)) as ex:
         runs = dict(zip(procs_list, ex.map(lambda p: run_impl(ctx, exe, hdir, p, case), procs_list)))
@@ -155,6 +158,28 @@ def run(ctx):
                           "speak about this code: %s" % (mism, (first.group(0) if first else mlog[-500:])[:900]),
                           {"case": int(first.group(1)) if first else None, "seed": ctx.seed, "tier": ctx.tier,
                            "gomaxprocs": procs, "driver_output": mlog[:3000]}, found_input=False)
+        # the mutator tie: model-level mutators against the Go methods on (before, after) dumps
+        rc3, tlog = vlib.sh([drv, "--mut", out + ".mut"], timeout=2400)
+        if ctx.replay:
+            print(tlog)
+        for mm in re.finditer(r"MUTCMP (\S+) (\d+)", tlog):
+            mut_cmp[mm.group(1)] = mut_cmp.get(mm.group(1), 0) + int(mm.group(2))
+        for mm in re.finditer(r"MUTMOVED (\S+) (\d+)", tlog):
+            mut_moved[mm.group(1)] = mut_moved.get(mm.group(1), 0) + int(mm.group(2))
+        tm = re.search(r"MUTTRIPLES (\d+) MUTBAD (\d+)", tlog)
+        triples = int(tm.group(1)) if tm else -1
+        if not new_fail:
+            for mm in re.finditer(r"MUTMISMATCH (\S+) triple (\d+) .*", tlog):
+                ctx.violation("c15-mutator-model:" + mm.group(1),
+                              "GOMAXPROCS=%d: the model-level mutator %s of coq/C15 and the Go method disagree on a single change of the "
+                              "history leg (dump before -> mutator vs dump after; a refused change must leave the dump unchanged), so "
+                              "wf_net_preserved / wf_net_preserved_more do not speak about this code: %s" % (procs, mm.group(1), mm.group(0)[:700]),
+                              {"seed": ctx.seed, "tier": ctx.tier, "gomaxprocs": procs, "driver_output": tlog[:3000]}, found_input=False)
+            if triples != summ.get("muttriples", -2) or "DRIVER-ERROR" in tlog or (tm and int(tm.group(2)) and "MUTMISMATCH" not in tlog):
+                ctx.violation("c15-mutator-tie-count", "GOMAXPROCS=%d: the driver compared %d (before, change, after) triples, the harness wrote %d%s"
+                              % (procs, triples, summ.get("muttriples", -2),
+                                 (" (" + re.search(r"DRIVER-ERROR.*", tlog).group(0) + ")") if "DRIVER-ERROR" in tlog else ""),
+                              {"driver_output": tlog[:2000], "gomaxprocs": procs}, found_input=False)
         if first_out is None:
             first_out = out
     # the same specifications exported by processes with different GOMAXPROCS
@@ -188,6 +213,14 @@ def run(ctx):
                                   "not explored, so it is not shown" % (procs, leg, s_.get(key, 0), s_.get("cases", 0), floor, s_.get("loadfailed", 0)),
                                   {"gomaxprocs": procs, "summary": {k: v for k, v in s_.items() if isinstance(v, int)}}, found_input=False)
                     break
+    # every mutator that is claimed to be tied must have been compared (accepted changes that moved an entry)
+    if not ctx.replay:
+        any_new = any(not any(o["signature"] == "c15-" + k for o in ctx.known_open) for s_ in summaries.values() for k in s_["propfail"])
+        for mut in TIED_MUTATORS:
+            if mut_moved.get(mut, 0) == 0 and not any_new:
+                ctx.violation("c15-mutator-tie-not-exercised:" + mut,
+                              "no accepted, state-changing %s was compared with the Go method in this run (comparisons: %s)" % (mut, mut_cmp),
+                              {"comparisons": mut_cmp, "moved": mut_moved}, found_input=False)
     s0 = summaries[procs_list[0]]
     ctx.min_evaluations = 3000 if ctx.tier == "quick" else 50000
     ctx.coverage.update({
@@ -223,6 +256,8 @@ def run(ctx):
                 "(hash of its Markdown + DBC) in which at least one bus lists two definitions / messages with a tied sort key",
         "distribution": hist,
         "model_mismatches": mism_total,
+        "mutator_tie_comparisons": dict(sorted(mut_cmp.items())),
+        "mutator_tie_state_changing": dict(sorted(mut_moved.items())),
         "wf_net_hypothesis": "wf_netb (proved sound for wf_net) evaluated by the driver on %d raw networks dumped through the getters "
                              "(initial and post-history states): false on %d" % (wf_checked, wf_false),
         "property_predicate_failures": sorted(set(k for s in summaries.values() for k in s["propfail"])),
